@@ -49,7 +49,7 @@ func (p *Prog) delegatedFilter(st *ssa.Store, field string) *delegatedFilterInfo
 			}
 		}
 	}
-	if listIdx < 0 || predIdx < 0 || len(call.Call.Args) != len(h.Params) {
+	if listIdx < 0 || len(call.Call.Args) != len(h.Params) {
 		return nil
 	}
 	comps := sccs(h.Blocks, blockSet(h.Blocks))
@@ -58,12 +58,18 @@ func (p *Prog) delegatedFilter(st *ssa.Store, field string) *delegatedFilterInfo
 	}
 	loop := blockSet(comps[0])
 	info := &delegatedFilterInfo{helper: h}
-	listPar, predPar := h.Params[listIdx], h.Params[predIdx]
+	listPar := h.Params[listIdx]
+	var predPar *ssa.Parameter
+	if predIdx >= 0 {
+		predPar = h.Params[predIdx]
+	}
 	// list[:0] before the loop, the only use of the list parameter
 	var trunc *ssa.Slice
 	for _, ref := range *listPar.Referrers() {
 		switch r := ref.(type) {
 		case *ssa.DebugRef:
+		case *ssa.Phi:
+			// the list handed in is the start of the accumulation (emptied by the caller)
 		case *ssa.Slice:
 			if k, isK := constDuration(r.High); isK && k == 0 && r.Low == nil && r.X == ssa.Value(listPar) && !loop[r.Block()] && trunc == nil {
 				trunc = r
@@ -75,6 +81,14 @@ func (p *Prog) delegatedFilter(st *ssa.Store, field string) *delegatedFilterInfo
 		}
 	}
 	info.truncated = trunc != nil
+	// ... or the caller hands in field[:0]
+	listArg := call.Call.Args[listIdx]
+	if sl, isSl := listArg.(*ssa.Slice); isSl && trunc == nil && sl.Low == nil {
+		if k, isK := constDuration(sl.High); isK && k == 0 {
+			info.truncated = true
+			listArg = sl.X
+		}
+	}
 	// one append in the loop, of the visited element, under pred(element)
 	var app *ssa.Call
 	for _, b := range h.Blocks {
@@ -90,7 +104,7 @@ func (p *Prog) delegatedFilter(st *ssa.Store, field string) *delegatedFilterInfo
 				app = c2
 				continue
 			}
-			if c2.Call.Value == ssa.Value(predPar) {
+			if predPar != nil && c2.Call.Value == ssa.Value(predPar) {
 				continue
 			}
 			if bi, isB := c2.Call.Value.(*ssa.Builtin); isB && (bi.Name() == "len" || bi.Name() == "cap") {
@@ -114,6 +128,9 @@ func (p *Prog) delegatedFilter(st *ssa.Store, field string) *delegatedFilterInfo
 	// the accumulated list: phi(list[:0], append(phi, el))
 	if ph, isPhi := app.Call.Args[0].(*ssa.Phi); isPhi {
 		for _, e := range ph.Edges {
+			if e == ssa.Value(listPar) && trunc == nil {
+				continue
+			}
 			if e != ssa.Value(app) && (trunc == nil || e != ssa.Value(trunc)) && e != ssa.Value(ph) {
 				if ph2, isPhi2 := e.(*ssa.Phi); !isPhi2 || !phiOnly(ph2, app, trunc, ph) {
 					return nil
@@ -124,25 +141,31 @@ func (p *Prog) delegatedFilter(st *ssa.Store, field string) *delegatedFilterInfo
 		return nil
 	}
 	guards := 0
+	var direct []*Cmp
 	for _, e := range InstrDomEdges(app) {
 		if !loop[e.From] {
 			continue
 		}
 		iff := e.From.Instrs[len(e.From.Instrs)-1].(*ssa.If)
 		base, neg := condOf(iff.Cond)
-		if c2, isCall := base.(*ssa.Call); isCall && c2.Call.Value == ssa.Value(predPar) {
+		if c2, isCall := base.(*ssa.Call); isCall && predPar != nil && c2.Call.Value == ssa.Value(predPar) {
 			if neg != (e.Succ != 0) || len(c2.Call.Args) != 1 || c2.Call.Args[0] != el {
 				return nil
 			}
 			guards++
 			continue
 		}
-		if cm := p.NormCmp(iff.Cond, e.Succ == 0); cm != nil && containsLen(cm) {
+		cm := p.NormCmp(iff.Cond, e.Succ == 0)
+		if cm != nil && containsLen(cm) {
 			continue // the range loop's own test
 		}
-		return nil
+		// a condition spelled in the helper itself, over its parameters (appendBelow(list, distribution))
+		if cm != nil {
+			cm.L, cm.R = p.substParams(call, h, cm.L), p.substParams(call, h, cm.R)
+		}
+		direct = append(direct, cm)
 	}
-	if guards != 1 {
+	if guards+len(direct) == 0 || (guards > 0 && len(direct) > 0) || guards > 1 {
 		return nil
 	}
 	// every result is the accumulated list
@@ -156,7 +179,7 @@ func (p *Prog) delegatedFilter(st *ssa.Store, field string) *delegatedFilterInfo
 		}
 		switch r := ret.Results[0].(type) {
 		case *ssa.Phi:
-			if !phiOnly(r, app, trunc, nil) {
+			if !phiOnly(r, app, trunc, nil) && !(trunc == nil && phiOnlyWith(r, app, listPar)) {
 				return nil
 			}
 		default:
@@ -166,7 +189,13 @@ func (p *Prog) delegatedFilter(st *ssa.Store, field string) *delegatedFilterInfo
 		}
 	}
 	// the call site
-	info.sameField = p.isFieldLoad(call.Call.Args[listIdx], field)
+	info.sameField = p.isFieldLoad(listArg, field)
+	if len(direct) > 0 {
+		info.key = p.substParams(call, h, p.Sym(el)).String()
+		info.conds = direct
+		info.source = p.substParams(call, h, src)
+		return info
+	}
 	switch f := call.Call.Args[predIdx].(type) {
 	case *ssa.MakeClosure:
 		info.pred, _ = f.Fn.(*ssa.Function)
@@ -189,6 +218,28 @@ func (p *Prog) delegatedFilter(st *ssa.Store, field string) *delegatedFilterInfo
 		info.conds = append(info.conds, p.NormCmp(ret.Results[0], true))
 	}
 	return info
+}
+
+// phiOnlyWith: every edge of ph is the append, ph itself or the start value.
+func phiOnlyWith(ph *ssa.Phi, app *ssa.Call, start ssa.Value) bool {
+	for _, e := range ph.Edges {
+		if e == ssa.Value(app) || e == ssa.Value(ph) || e == start {
+			continue
+		}
+		if ph2, ok := e.(*ssa.Phi); ok && ph2 != ph {
+			okAll := true
+			for _, e2 := range ph2.Edges {
+				if !(e2 == ssa.Value(app) || e2 == ssa.Value(ph) || e2 == ssa.Value(ph2) || e2 == start) {
+					okAll = false
+				}
+			}
+			if okAll {
+				continue
+			}
+		}
+		return false
+	}
+	return true
 }
 
 func containsLen(cm *Cmp) bool {
